@@ -154,12 +154,12 @@ def check_profile(profile, render: bool, via="inject", lengths=None, files=None,
 
 
 REAL_PATHS = ["a.py", "src/b.py", "src/core/engine/run.py", "lib/c.js", "lib/deep/er/d.ts"]
-REAL_MODES = ["once", "once", "late", "twice", "roundtrip", "roundtrip-twice"]
+REAL_MODES = ["once", "once", "late", "queried-late", "queried-late", "twice", "roundtrip", "roundtrip-twice"]
 
 
 def _real_report(lengths, files=None, mode="once"):
     """A report over a real Codebase. files: [[path, [lengths...]], ...] (default: everything in one file); mode: how the
-    codebase came about - aggregated once (scan), some files added after the aggregation, aggregated twice, or written
+    codebase came about - aggregated once (scan), some files added after the aggregation (with or without the figures having been asked for before), aggregated twice, or written
     and read back (report / findings), optionally aggregated again."""
     from codelimit.common.Codebase import Codebase
     from codelimit.common.Location import Location
@@ -171,7 +171,7 @@ def _real_report(lengths, files=None, mode="once"):
 
     files = files or [["a.py", list(lengths)]]
     cb = Codebase("/")
-    late = files[len(files) // 2 :] if mode == "late" and len(files) > 1 else []
+    late = files[len(files) // 2 :] if mode in ("late", "queried-late") and len(files) > 1 else []
     early = files[: len(files) - len(late)]
 
     def add(path, ls):
@@ -182,11 +182,15 @@ def _real_report(lengths, files=None, mode="once"):
     for path, ls in early:
         add(path, ls)
     cb.aggregate()
+    report = Report(cb)
+    if mode == "queried-late":
+        # the summary figures are asked for once before the code base grows (a long-lived Codebase / Report object)
+        report.quality_profile_percentage()
+        cb.total_loc()
     for path, ls in late:
         add(path, ls)
     if mode == "twice":
         cb.aggregate()
-    report = Report(cb)
     if mode.startswith("roundtrip"):
         report = ReportReader.from_json(ReportWriter(report).to_json())
         if mode.endswith("twice"):
